@@ -1099,4 +1099,63 @@ Qed.
 Lemma c01_obs_holds c ls s : frun c f0 ls = Some s -> C01_obs (flog s) = true.
 Proof. intros Hr. unfold C01_obs. rewrite c01_scan_proj. apply (ti_scan _ (TInv_run _ _ _ Hr)). Qed.
 
+
+(* ------------------------------------------------------------------ *)
+(* C16, the one place where the discipline is ownership + channel rather than a mutex: kl.val / kl.err.
+   A step changes a key lock record only if the stepping thread owns it (or creates it), an owned
+   record is still open, and a waiter reads a record only once it is closed: every write happens
+   before close(kl.lock), every read after the receive from it. *)
+Lemma kls_change c s t o s' th :
+  LInv s -> threads s !! t = Some th -> fstep c s (LStep t o) = Some s' ->
+  forall kid, kls s' !! kid = kls s !! kid \/ t_own th = Some kid \/ (kls s !! kid = None /\ kid = next_kl s /\ t_own th = None).
+Proof.
+  intros Hi Ht Hs kid.
+  assert (Hfresh : kls s !! next_kl s = None).
+  { destruct (kls s !! next_kl s) as [x|] eqn:Hx; [|reflexivity]. pose proof (li_kls_bound _ Hi _ _ Hx). lia. }
+  pose proof (li_twf _ Hi _ _ Ht) as Hw.
+  fstep_cases Hs Ht; cbn; auto.
+  all: try (match goal with
+            | |- context [alter _ ?i _ !! ?j] => destruct (decide (i = j)) as [<-|Hne]; [right; left; first [reflexivity|assumption]|left; apply lookup_alter_ne; exact Hne]
+            end).
+  all: try (match goal with |- context [<[?n := _]> _ !! ?j] => destruct (decide (n = j)) as [<-|Hne] end; [|left; apply lookup_insert_ne; exact Hne];
+            right; right; split; [exact Hfresh|]; split; [reflexivity|];
+            apply (tw_early _ Hw); match goal with H : t_pc _ = _ |- _ => rewrite H end; reflexivity).
+  all: try (match goal with
+            | |- context [alter _ ?i _ !! ?j] => destruct (decide (i = j)) as [<-|Hne]; [right; left; first [reflexivity|assumption]|left; apply lookup_alter_ne; exact Hne]
+            end).
+Qed.
+
+(* a record that is written is owned, registered and still open *)
+Lemma kl_written_open c s t o s' th id x :
+  LInv s -> threads s !! t = Some th -> fstep c s (LStep t o) = Some s' ->
+  kls s !! id = Some x -> kls s' !! id <> Some x ->
+  t_own th = Some id /\ kl_closed x = false.
+Proof.
+  intros Hi Ht Hs Hx Hne. destruct (kls_change _ _ _ _ _ _ Hi Ht Hs id) as [Heq|[Ho|(Hn & _)]]; [congruence| |congruence].
+  split; [exact Ho|]. pose proof (li_owner_lock _ Hi _ _ _ Ht Ho) as Hk.
+  destruct (li_locks_open _ Hi _ _ Hk) as (x' & Hx' & Hc & _). congruence.
+Qed.
+
+(* a waiter returns what it reads from a record only after the record was closed *)
+Lemma waiter_reads_closed c s t o s' th :
+  threads s !! t = Some th -> t_pc th = PWaiting -> fstep c s (LStep t o) = Some s' ->
+  exists id x, t_wait th = Some id /\ kls s !! id = Some x /\ kl_closed x = true /\
+               option_map t_res (threads s' !! t) = Some (kl_val x, kl_err x).
+Proof.
+  intros Ht Hp Hs. unfold Failover.fstep in Hs. rewrite Ht, Hp in Hs.
+  destruct (t_wait th) as [id|]; [|discriminate]. destruct (kls s !! id) as [x|] eqn:Hx; [|discriminate].
+  destruct (kl_closed x) eqn:Hc; [|discriminate]. injection Hs as <-. exists id, x. cbn. rewrite lookup_insert. auto.
+Qed.
+
+(* once closed, a record never changes again *)
+Lemma closed_is_final c s l s' id x :
+  LInv s -> fstep c s l = Some s' -> kls s !! id = Some x -> kl_closed x = true -> kls s' !! id = Some x.
+Proof.
+  intros Hi Hs Hx Hc. destruct l as [t k skip cell|t o].
+  - cbn in Hs. destruct (threads s !! t); [discriminate|]. destruct (t <? 1000)%N; [|discriminate]. injection Hs as <-. exact Hx.
+  - destruct (threads s !! t) as [th|] eqn:Ht; [|unfold Failover.fstep in Hs; rewrite Ht in Hs; discriminate].
+    destruct (decide (kls s' !! id = Some x)) as [?|Hne]; [assumption|].
+    destruct (kl_written_open _ _ _ _ _ _ _ _ Hi Ht Hs Hx Hne) as [_ Ho]. congruence.
+Qed.
+
 End Proofs.
